@@ -9,15 +9,21 @@
 #    client sends them (messages of <= 4096 bytes -- a message is the unit of the shell API, not a byte stream);
 #    file transfer: a file of n bytes through UploadFile / DownloadFile.
 #  * the far end must see exactly the written bytes (SHA-256), whatever the framing.
-#  * differences between the frame lengths the spec predicts and the ones observed (without lost bytes or oversize
-#    frames) are a lost binding (exit 2), never a violation.
+#  * a write that returns an error, bytes that differ at the far end (or on the way back) and a frame above the limit
+#    are violations.  Frame lengths that differ from the ones the spec's transcription predicts, while all frames are
+#    within the limit and the bytes arrive exactly, are recorded as DRIFT: every remaining size is still driven, and
+#    only if the whole run ends with drift and without any violation the check exits 2 (the specification no longer
+#    describes the code) -- never a violation.
+#  * sizes: the boundary sizes, every size within 4 bytes of k*P for k = 1..10 (P = 16384-28), seeded random sizes up
+#    to 200 KiB and 1 MiB (5 MiB); tcp and forward (meshConn.Write) run all of them in both tiers, the other paths a
+#    seeded sample in the quick tier and all of them in the thorough tier.
 import os
 import vf, _chunking as K
 
 
 def run(ctx):
     ideal, vecs, vsum, caught, scaled = K.model(ctx)
-    sizes, summ, scen = K.drive(ctx, vecs, vsum, corrupt=os.environ.get("ZZV_C07_CORRUPT"))
+    sizes, summ, scen = K.drive(ctx, vecs, vsum, ideal.random_sizes, corrupt=os.environ.get("ZZV_C07_CORRUPT"))
     P = vsum["p"]
     summ["oversize"] = summ.get("oversize") or []
     for line in summ["oversize"][:5]:
@@ -53,16 +59,21 @@ def run(ctx):
                                                 [x["n"] for x in ss]),
                     {"first": s, "failing": [{k: x[k] for k in ("kind", "n", "err", "far", "want", "up", "down")} for x in ss]})
     binding = [(s["kind"], s["n"], b) for s in scen for b in (s.get("binding") or [])]
+    if binding:
+        ctx.log("drift: %d frame-length differences from the transcription, first: %s" % (len(binding), binding[0]))
     if binding and not ctx.violations:
-        raise vf.Infra("Chunking.tla no longer describes the code (%d differences without lost bytes), first: %s" % (
-            len(binding), binding[0]))
+        raise vf.Infra("Chunking.tla no longer describes the code: %d scenarios ran, all bytes arrived and no frame exceeded "
+                       "the limit, but %d frame-length sequences differ from the transcription; first: %s" % (
+                           len(scen), len(binding), binding[0]))
     nontrivial = len({(s["kind"], s["n"]) for s in scen if s["n"] >= P - 1 and s["nup"] + s["ndown"] >= 1})
     ctx.evidence("exploration",
                  assumptions=["Chunking.tla checked exhaustively with scaled constants %s for every write size 0..%d on all 5 "
                               "chunkers, all read segmentations" % (scaled, scaled["maxwrite"]),
                               "real code driven on an in-memory A-B-C mesh with the sizes TLC derives from the real constants "
-                              "(Max 16384, overhead 28): 0, 1, P-1, P, P+1, 2P-1, 2P, 2P+1, 1 MiB%s; random payloads (seed)" %
-                              ("" if ctx.quick() else ", 5 MiB"),
+                              "(Max 16384, overhead 28): 0, 1, P-1, P, P+1, 2P-1, 2P, 2P+1, every size within 4 bytes of k*P for "
+                              "k = 1..10, %d seeded random sizes below 200 KiB, 1 MiB%s; tcp/forward run all %d sizes, the other "
+                              "paths %s; random payloads (seed)" % (len(ideal.random_sizes), "" if ctx.quick() else ", 5 MiB",
+                                                                   len(sizes), "a seeded sample" if ctx.quick() else "all"),
                               "shell stdin is written in messages of <= 4096 bytes like the shell client does; file transfers are "
                               "always gzip-compressed by the code, so their frame sizes follow the compressed stream",
                               "the reader of a shell session consumes promptly (the adapter drops output when its 64-message "
@@ -74,6 +85,7 @@ def run(ctx):
                  scenarios_failed=len(bad), binding_differences=len(binding),
                  model_states=ideal.distinct, model_transitions=ideal.generated, shellpipes_states=ideal.pipes_states,
                  deviations_caught=caught, skipped=summ.get("skipped") or [],
-                 sizes=sizes, paths=K.KINDS, exhaustive=False,
+                 sizes_count=len(sizes), random_sizes=ideal.random_sizes, paths=K.KINDS, exhaustive=False,
+                 scenarios_per_path={k: sum(1 for s in scen if s["kind"] == k) for k in K.KINDS},
                  samples=[{k: s[k] for k in ("kind", "n", "ok", "far", "up", "down", "max_payload")} for s in scen
                           if s["n"] in (P, P + 1)][:8])
